@@ -290,4 +290,53 @@ def mapDfOf {ν γ} (d : DfFacts) (f : ν → Res γ) (nl : List ν) (omitF : Bo
   if d.zipPartner == "survivors" && d.survivorsFilterNotFailed && d.procRecordsFailed && d.labelsWithOwnId
   then mapDfW f nl omitF else mapDfPreFix f nl omitF
 
+/-! ### The in-place swap at the end of `map_neuronlist`
+
+    if inplace:                    # <- `swapGuard`
+        nl.neurons = res.neurons   #    the input list object is kept, its members become the results
+    else:                          # <- `elseGuard = none` (a plain `else`)
+        nl = res
+    return nl                                                                              -/
+
+/-- Boolean tests over the wrapper's two flags, as extracted from the source. -/
+inductive BE where
+  | inplace | parallel | tt | ff
+  | not (e : BE)
+  | and (a b : BE)
+  | or (a b : BE)
+deriving Repr, DecidableEq
+
+def BE.eval (inplace parallel : Bool) : BE → Bool
+  | .inplace => inplace
+  | .parallel => parallel
+  | .tt => true
+  | .ff => false
+  | .not e => !(e.eval inplace parallel)
+  | .and a b => a.eval inplace parallel && b.eval inplace parallel
+  | .or a b => a.eval inplace parallel || b.eval inplace parallel
+
+structure SwapFacts where
+  swapGuard : BE                -- test of the branch that executes `nl.neurons = res.neurons`
+  elseGuard : Option BE         -- `none`: plain `else: nl = res`; `some g`: `elif g: nl = res`
+  swapAssignsResultNeurons : Bool   -- the guarded statement is `<list>.neurons = <result>.neurons`
+  elseReturnsResult : Bool      -- the other branch is `<list> = <result>`; the wrapper returns `<list>`
+deriving Repr, DecidableEq
+
+/-- Which branch runs: `some true` = members swapped into the input list, which is returned;
+`some false` = the result list is returned; `none` = neither (the input list is returned untouched). -/
+def swapOf (sf : SwapFacts) (inplace parallel : Bool) : Option Bool :=
+  if sf.swapGuard.eval inplace parallel then some true
+  else match sf.elseGuard with
+    | none => some false
+    | some g => if g.eval inplace parallel then some false else none
+
+/-- Observable outcome of the wrapper for an input list with members `nl` and processor result `res`
+(the survivors' results, in order): (is the returned object the input list?, members of the returned list,
+members of the input list afterwards). -/
+def swapOutcome {ν} (branch : Option Bool) (nl res : List ν) : Bool × List ν × List ν :=
+  match branch with
+  | some true => (true, res, res)
+  | some false => (false, res, nl)
+  | none => (true, nl, nl)
+
 end Navis.Zip
